@@ -120,18 +120,29 @@ def check_zero_fill(model, rep):
                     if const(mode) == 'iadd':
                         evs.append(Event('ACC', s, f'iadd into {dst}'))
                     elif src(mode) == 'mode':
-                        evs.append(Event('FWD', s, kind))
+                        evs.append(Event('FWD', s, kind))   # 'mode' may have been rebound to 'iadd' on this path: decided while walking the path
                     else:
                         evs.append(Event('FWD', s, kind + ':' + src(mode)))
+            if isinstance(s, ast.Assign) and len(s.targets) == 1 and src(s.targets[0]) == 'mode':
+                evs.append(Event('SETMODE', s, const(s.value)))
             return evs
-        paths = PathEnumerator(f.node, on_stmt=on_stmt, unroll=1).paths()
+        paths = PathEnumerator(f.node, on_stmt=on_stmt, unroll=2).paths()
         bad = None
         for p in paths:
             if p.end == 'raise':
                 continue
             filled = False
             not_assign = False
+            forwarded_assign = None
             for e in p.events:
+                if e.kind == 'SETMODE':
+                    not_assign = e.data == 'iadd'
+                    continue
+                if e.kind == 'FWD' and e.data in ('out', 'full') and not not_assign and not filled:
+                    forwarded_assign = e
+                if e.kind in ('ACC', 'FWD') and forwarded_assign is not None and e is not forwarded_assign and not filled:
+                    bad = (e, 'accumulates into out after the (possible) assign mode was forwarded to another term: the statements are placed by block order, not in this order, so the forwarded assignment can be emitted '
+                              'after an accumulation and overwrite it - one term of the sum is lost')
                 if e.kind == 'cond' and src(e.node).replace(' ', '') in ("mode=='assign'",):
                     if e.data[0] is False:
                         not_assign = True
@@ -543,6 +554,7 @@ def run(model, rep, tier):
     rep.rule('R02.7', '_compile_expression arity equals the number of dependencies')
     rep.rule('R02.8', 'parallel configuration: shared allocation / lock pairing (= R16.4)')
     rep.rule('R02.9', 'dependency edges are recorded before the compiled-cache lookup')
+    rep.rule('R02.11', 'constant-intermediate caching: what is cached, frozen, declared global; first_run dispatch and reset (= R03.2)')
     rep.rule('R02.10', 'einsum labels and axis positions are never compared with or indexed by each other (kind typing)')
     check_destinations(model, rep)
     check_zero_fill(model, rep)
@@ -553,6 +565,8 @@ def run(model, rep, tier):
     check_expression_arity(model, rep)
     check_dependency_registration(model, rep)
     check_label_position_typing(model, rep)
+    from rules.c03 import check_cache_protocol, _Rename
+    check_cache_protocol(model, _Rename(rep, {'R03.2': 'R02.11'}))   # with constant-intermediate caching: the first_run dispatch (= R03.2)
     from rules.c16 import check_shared_alloc
     from rules.c03 import _Rename
     check_shared_alloc(model, _Rename(rep, {'R16.4': 'R02.8'}))
